@@ -156,6 +156,7 @@ class Batch(object):
         self.t0 = time.monotonic()
         self.truncated = False
         self.cover = True
+        self.hangs = 0
 
     def make_scenario(self, idx):
         s = scenario_seed(self.seed, self.prop, idx)
@@ -202,6 +203,10 @@ class Batch(object):
                     continue
                 with self.lock:
                     self.results[i] = val
+                    if any('/hang' in v['sig'] for v in val.get('violations', [])):
+                        self.hangs += 1
+                        if self.hangs >= 3:
+                            self.count = min(self.count, self.next_idx)   # stop dispatching
         except BaseException as e:
             with self.lock:
                 self.errors.append('worker thread %d: %r' % (widx, e))
@@ -323,7 +328,8 @@ def run_check(prop, tier, verif_seed, repo, jobs, count=None, wallcap=None, shri
                 detail = v['detail']
                 minimised = sc
                 try:
-                    tag, val = w.call(('shrink', prop, sc, sig, shrink_budget), timeout=900)
+                    tag, val = w.call(('shrink', prop, sc, sig, shrink_budget,
+                                       60 if tier == 'quick' else 240), timeout=900)
                     if tag == 'ok':
                         minimised = val['scenario']
                         tag2, val2 = w.call(('exec', prop, minimised))
